@@ -2431,6 +2431,7 @@ void add_all(char const* tname)
     add_inplace<T, 2>(tname);
     add_inplace<T, 4>(tname);
     add_inplace<T, 40>(tname);
+    add_inplace<T, 254>(tname); // the largest capacity whose size still lives in one byte
     add_inplace<T, 255>(tname);
     add_inplace<T, 256>(tname);
 }
